@@ -384,3 +384,65 @@ func pkgOfFunc(name string) string {
 	}
 	return name
 }
+
+func init() {
+	externals[VerifPkg+".Secret"] = func(fr *frame, args []value) value {
+		e := needEx(fr)
+		for _, b := range args[0].([]value) {
+			if s, ok := b.(sym); ok {
+				for _, v := range smt.VarsOf([]*smt.Term{s.t}) {
+					e.secretVars[v.Name] = v
+				}
+			}
+		}
+		return nil
+	}
+	externals[VerifPkg+".Sink"] = func(fr *frame, args []value) value {
+		e := needEx(fr)
+		e.sinks = append(e.sinks, sinkRec{argStr(args[0]), append([]value{}, args[1].([]value)...)})
+		return nil
+	}
+	// NoLeak: no recorded sink byte depends on a secret variable (decided semantically: two runs that differ
+	// only in the secrets, both satisfying the path condition, produce the same sink bytes).
+	externals[VerifPkg+".NoLeak"] = func(fr *frame, args []value) value {
+		e := needEx(fr)
+		id := argStr(args[0])
+		c := e.Ctx
+		ren := map[string]*smt.Term{}
+		for name, v := range e.secretVars {
+			ren[name] = c.Var("sx_"+name, v.W)
+		}
+		memo := map[int]*smt.Term{}
+		var diffs []*smt.Term
+		for _, sk := range e.sinks {
+			for _, b := range sk.bytes {
+				s, ok := b.(sym)
+				if !ok {
+					continue
+				}
+				dep := false
+				for _, v := range smt.VarsOf([]*smt.Term{s.t}) {
+					if _, isSecret := e.secretVars[v.Name]; isSecret {
+						dep = true
+						break
+					}
+				}
+				if !dep {
+					continue
+				}
+				diffs = append(diffs, c.BNot(c.Eq(s.t, c.Subst(s.t, ren, memo))))
+			}
+		}
+		if len(diffs) == 0 {
+			e.Assert(c.True, id)
+			return nil
+		}
+		var pc2 []*smt.Term
+		for _, p := range e.pc {
+			pc2 = append(pc2, c.Subst(p, ren, memo))
+		}
+		leak := c.BAnd(append(pc2, c.BOr(diffs...))...)
+		e.Assert(c.BNot(leak), id)
+		return nil
+	}
+}
